@@ -601,6 +601,125 @@ Example summary_option_on_reveals : exists u b, consistent (row u b) = true /\ m
   s_title (load_board_summary_with 1 u b) = true.
 Proof. exists (mk_user 31 false), (mk_board 10 true 48 0 false false false true). vm_compute. auto. Qed.
 
+(* ------------------------------------------------------------------ board life cycle: the moderator cache of a slot *)
+(* invariant: the moderator cache of every slot that holds a board is ParseBMList of that board's own BM field *)
+Definition l_slot_ok (s : lslot) : Prop :=
+  match fst s with Some b => snd s = parse_bm_list (lb_bms b) | None => True end.
+Definition l_inv (sl : list lslot) : Prop := Forall l_slot_ok sl.
+
+Lemma put_free_inv b : forall sl sl', l_inv sl -> put_free true b sl = Some sl' -> l_inv sl'.
+Proof.
+  induction sl as [| s r IH]; intros sl' Hinv Hput; cbn [put_free] in Hput; [discriminate |].
+  inversion Hinv as [| s0 r0 Hs Hr]; subst.
+  destruct (fst s) eqn:Efs.
+  - destruct (put_free true b r) as [r' |] eqn:Er; cbn [option_map] in Hput; [| discriminate].
+    injection Hput as <-. constructor; [exact Hs | apply IH; [exact Hr | reflexivity]].
+  - injection Hput as <-. constructor; [| exact Hr]. unfold l_slot_ok. cbn [fst snd]. reflexivity.
+Qed.
+
+Lemma l_create_inv sl n ms attr level : l_inv sl -> l_inv (fst (l_create true sl n ms attr level)).
+Proof.
+  intros Hinv. unfold l_create. destruct (existsb (l_named n) sl); [exact Hinv |].
+  destruct (put_free true (mnewbrd_header n ms attr level) sl) as [sl' |] eqn:Ep; cbn [fst].
+  - eapply put_free_inv; eassumption.
+  - apply Forall_app. split; [exact Hinv |]. constructor; [| constructor]. unfold l_slot_ok. cbn [fst snd]. reflexivity.
+Qed.
+
+Lemma l_remove_inv sl n : l_inv sl -> l_inv (fst (l_remove sl n)).
+Proof.
+  intros Hinv. unfold l_remove. destruct (existsb (l_named n) sl); cbn [fst]; [| exact Hinv].
+  unfold l_inv in *. rewrite Forall_forall in *. intros s Hin. apply in_map_iff in Hin. destruct Hin as (s0 & <- & Hin0).
+  destruct (l_named n s0); [unfold l_slot_ok; cbn [fst]; exact I | apply Hinv; exact Hin0].
+Qed.
+
+Lemma l_apply_inv sl st : l_inv sl -> l_inv (fst (l_apply true sl st)).
+Proof.
+  intros Hinv. destruct st as [n attr level ms | n | | n u ulevel o18 |]; cbn [l_apply]; try exact Hinv.
+  - pose proof (l_create_inv sl n ms attr level Hinv) as H. destruct (l_create true sl n ms attr level). exact H.
+  - pose proof (l_remove_inv sl n Hinv) as H. destruct (l_remove sl n). exact H.
+Qed.
+
+Lemma l_run_inv : forall steps sl, l_inv sl -> l_inv (fst (l_run true sl steps)).
+Proof.
+  induction steps as [| s r IH]; intros sl Hinv; cbn [l_run]; [exact Hinv |].
+  pose proof (l_apply_inv sl (l_decode s) Hinv) as H1. unfold l_step.
+  destruct (l_apply true sl (l_decode s)) as [sl1 o1]. cbn [fst] in H1.
+  pose proof (IH sl1 H1) as H2. destruct (l_run true sl1 r) as [sl2 o2]. exact H2.
+Qed.
+
+Lemma l_find_cache sl n b c : l_inv sl -> find (l_named n) sl = Some (Some b, c) -> c = parse_bm_list (lb_bms b).
+Proof.
+  intros Hinv Hf. apply find_some in Hf. destruct Hf as [Hin _].
+  unfold l_inv in Hinv. rewrite Forall_forall in Hinv. exact (Hinv _ Hin).
+Qed.
+
+(* what the specification prescribes as the answer to a query: every article entry point says may_read, the listing and
+   the summary show the board / its title iff may_list *)
+Definition l_spec_answer (i : inp) : list Z :=
+  [1; zb (may_read i); zb (may_read i); zb (may_read i); zb (may_read i); zb (may_read i); zb (may_read i);
+   zb (may_read i); zb (may_read i); if may_list i then 1 else 0; if may_list i then 1 else 2].
+
+Lemma nr_refused A (o : outcome A) m : refused o = negb m -> nr o = zb m.
+Proof. intros H. unfold nr. rewrite H. rewrite Bool.negb_involutive. reflexivity. Qed.
+
+Lemma by_bids_single us bd : b_named bd = true ->
+  load_boards_by_bids us [bd] = if may_list (row us bd) then [summarize true us bd] else [].
+Proof.
+  intros Hn. unfold load_boards_by_bids. cbn [filter]. rewrite Hn. cbn [andb]. rewrite visible_may_list.
+  destruct (may_list (row us bd)); reflexivity.
+Qed.
+
+Lemma l_answer_spec b c u ulevel o18 : l_answer b c u ulevel o18 = l_spec_answer (l_inp b c u ulevel o18).
+Proof.
+  unfold l_answer, l_spec_answer.
+  set (i := l_inp b c u ulevel o18). set (c0 := content_of_bits 0).
+  destruct (entry_points_any_content i c0) as (Hv & Hg & Hb & Hf & Hp & Ht).
+  rewrite Hv. rewrite (nr_refused _ _ _ Hg), (nr_refused _ _ _ Hb), (nr_refused _ _ _ Hf), (nr_refused _ _ _ (Hp 77 eq_refl)), (nr_refused _ _ _ Ht).
+  set (us := mk_user ulevel o18).
+  set (bd := mk_board 0 true (lb_attr b) (lb_level b) (existsb (Z.eqb u) c) false (existsb (Z.eqb u) (lb_bms b)) true).
+  assert (Hrow : row us bd = i) by reflexivity.
+  assert (Hl : hd 0 (code_listing (load_boards_by_bids us [bd])) = if may_list i then 1 else 0).
+  { rewrite (by_bids_single us bd eq_refl), Hrow.
+    destruct (may_list i) eqn:E; cbn [code_listing hd]; [| reflexivity].
+    rewrite summarize_title, Hrow, E. reflexivity. }
+  rewrite Hl. unfold load_board_summary. rewrite summarize_title, Hrow.
+  unfold code_valid. destruct (may_read i); reflexivity.
+Qed.
+
+(* after EVERY history of creations, removals and reloads: the moderator cache of the slot a board is in is that board's
+   own moderator list, and a query is answered by the specification applied to the caller and to the header the board
+   has now - whichever boards were in the slot before *)
+Lemma life_cycle : forall steps n b c u ulevel o18,
+  find (l_named n) (fst (l_run true [] steps)) = Some (Some b, c) ->
+  c = parse_bm_list (lb_bms b) /\
+  l_query (fst (l_run true [] steps)) n u ulevel o18 = l_spec_answer (l_inp b (parse_bm_list (lb_bms b)) u ulevel o18).
+Proof.
+  intros steps n b c u ulevel o18 Hf.
+  assert (Hc : c = parse_bm_list (lb_bms b)).
+  { eapply l_find_cache; [| exact Hf]. apply l_run_inv. constructor. }
+  split; [exact Hc |]. unfold l_query. rewrite Hf. rewrite l_answer_spec. rewrite Hc. reflexivity.
+Qed.
+
+(* non-vacuity: a slot used a second time. Board 0 (level SYSOP, moderator 0) is created and removed, board 1 (level SYSOP,
+   moderator 2) takes its slot: the former moderator is refused everywhere and not listed, the new one is allowed *)
+Definition l_reuse_history : list (list Z) := [[1; 0; 0; 16384; 0]; [2; 0]; [3]; [1; 1; 0; 16384; 2]].
+Example life_cycle_slot_reused :
+  find (l_named 1) (fst (l_run true [] l_reuse_history)) = Some (Some (mk_lboard 1 [2] 0 16384), [2]) /\
+  length (fst (l_run true [] l_reuse_history)) = 1%nat /\
+  l_query (fst (l_run true [] l_reuse_history)) 1 0 31 false = [1; 0; 0; 0; 0; 0; 0; 0; 0; 0; 2] /\
+  l_query (fst (l_run true [] l_reuse_history)) 1 2 31 false = [1; 1; 1; 1; 1; 1; 1; 1; 1; 1; 1].
+Proof. vm_compute. auto. Qed.
+
+(* what cache.ResetBoard is needed for on the free-slot path: publishing the header alone ([reset] = false) leaves the
+   former board's moderators in the slot's cache - they are then allowed on the new board, its own moderator is refused *)
+Lemma life_cycle_needs_reset : exists steps n b c old new ulevel,
+  find (l_named n) (fst (l_run false [] steps)) = Some (Some b, c) /\
+  may_read (l_inp b (parse_bm_list (lb_bms b)) old ulevel false) = false /\
+  nth 1 (l_query (fst (l_run false [] steps)) n old ulevel false) 0 = 1 /\
+  may_read (l_inp b (parse_bm_list (lb_bms b)) new ulevel false) = true /\
+  nth 1 (l_query (fst (l_run false [] steps)) n new ulevel false) 0 = 0.
+Proof. exists l_reuse_history, 1, (mk_lboard 1 [2] 0 16384), [0], 0, 2, 31. vm_compute. auto. Qed.
+
 (* ------------------------------------------------------------------ packaged statements for Props/C07.v *)
 Lemma every_build : forall (c : build),
   (forall u b, s_title (load_board_summary_in c u b) = may_list (row u b) /\ s_bid (load_board_summary_in c u b) = b_bid b) /\
